@@ -253,6 +253,7 @@ func HarnessLogoutConformant() {
 		vrtReqParam(rb, "SAMLRequest", false, "", true, vrtB64(wire))
 		vrtReqParam(rb, "RelayState", false, "", rs != "", rs)
 	}
+	vrtAssume(!vrtBool("req.parsefail")) // a conformant client sends a well-formed query / form body
 	rp, panicked := vrtServe(p, rb)
 	if panicked {
 		vrtOutcome("panic")
